@@ -101,6 +101,18 @@ func c05RunX(rc *simrt.RunCtx, faults, inject bool) {
 	// the client closes a connection once both plans are through; the next
 	// Dial/Accept then yields the next connection of the session
 	st.afterDone = func(in *instance) bool { return in.side == "client" }
+	if rc.Pick(5, "wl.abandon") == 0 {
+		// the first connections are given up by the client application in
+		// the middle of the transfer (it stops reading and closes)
+		upTo := 1 + rc.Pick(3, "wl.abandon-instances")
+		st.abandonAt = func(in *instance) int {
+			if in.side != "client" || in.k >= upTo {
+				return 0
+			}
+			return 1 + rc.Pick(in.plan+40000, "wl.abandon-at")
+		}
+		rc.Knob("abandon", upTo)
+	}
 	// think time between connections; a session that has already cycled
 	// through many connections slows down (each handshake costs real time)
 	think := []time.Duration{0, 0, 50 * time.Millisecond, time.Second, 4 * time.Second}[rc.Pick(5, "wl.think")]
